@@ -20,6 +20,14 @@ SHAPE_METHODS = {"reshape", "ravel", "flatten", "squeeze", "copy", "tolist"}
 SHAPE_FUNCS = {"np.asarray", "np.array", "float", "np.squeeze", "np.ravel", "sc.promotetoarray"}
 
 
+PURE_FUNCS = {"exp": "exp", "np.exp": "exp", "math.exp": "exp", "log": "log", "np.log": "log", "np.maximum": "maximum", "np.minimum": "minimum", "max": "maximum", "min": "minimum", "np.cumsum": "cumsum", "np.sum": "sum", "sum": "sum", "abs": "abs", "np.abs": "abs", "np.product": "prod", "np.prod": "prod", "np.argsort": "argsort", "np.sqrt": "sqrt", "sqrt": "sqrt"}
+COMMUTATIVE = {"maximum", "minimum"}
+
+
+def _fname(c):
+    return ast.unparse(c.func)
+
+
 class NotPolynomial(Exception):
     pass
 
@@ -74,6 +82,9 @@ def poly(e, env=None, depth=0):
         return {m: -c for m, c in poly(e.operand, env, depth + 1).items()}
     if isinstance(e, ast.UnaryOp) and isinstance(e.op, ast.UAdd):
         return poly(e.operand, env, depth + 1)
+    if isinstance(e, ast.BinOp) and isinstance(e.op, ast.BitXor) and isinstance(e.right, ast.Constant) and e.right.value == 1:
+        # on a 0/1 indicator array  x ^ 1  is  1 - x
+        return _add({(): Fraction(1)}, poly(e.left, env, depth + 1), -1)
     if isinstance(e, ast.BinOp):
         if isinstance(e.op, ast.Add):
             return _add(poly(e.left, env, depth + 1), poly(e.right, env, depth + 1))
@@ -91,6 +102,17 @@ def poly(e, env=None, depth=0):
                 out = _mul(out, base)
             return out if n >= 0 else _inv(out)
         raise NotPolynomial(ast.unparse(e))
+    if isinstance(e, ast.Call) and _fname(e) in PURE_FUNCS:
+        args = []
+        for a in e.args:
+            try:
+                args.append(show(poly(a, env, depth + 1)))
+            except NotPolynomial:
+                args.append(ast.unparse(a))
+        if PURE_FUNCS[_fname(e)] in COMMUTATIVE:
+            args = sorted(args)
+        kws = sorted("%s=%s" % (k.arg, ast.unparse(k.value)) for k in e.keywords if k.arg not in ("out", "dtype"))
+        return {(("%s(%s)" % (PURE_FUNCS[_fname(e)], ", ".join(args + kws)), 1),): Fraction(1)}
     if isinstance(e, ast.Name) and e.id in env:
         v = env[e.id]
         return poly(v, {k: x for k, x in env.items() if k != e.id}, depth + 1)
